@@ -64,18 +64,15 @@ Fixpoint supdate {A} (k : string) (v : A) (l : list (string * A)) : list (string
 Definition sadd (k : string) (l : list string) : list string := if smem k l then l else l ++ [k].
 Definition zadd (k : Z) (l : list Z) : list Z := if zmem k l then l else l ++ [k].
 
-(* add_input_to_map *)
+(* add_input_to_map: the name must not be registered, under any party, for a different operation *)
 Definition add_input (id : Z) (ty : mty) (name party doc : string) (c : cstate) : res cstate :=
   let pin := match sassoc party (c_inputs c) with Some l => l | None => [] end in
-  match sassoc name pin with
-  | Some (id', _, _) => if Z.eqb id' id then
-        Ok {| c_inputs := supdate party (supdate name (id, ty, doc) pin) (c_inputs c);
-              c_parties := sadd party (c_parties c); c_literals := c_literals c; c_functions := c_functions c |}
-      else Err "CompilerException"
-  | None =>
-      Ok {| c_inputs := supdate party (supdate name (id, ty, doc) pin) (c_inputs c);
-            c_parties := sadd party (c_parties c); c_literals := c_literals c; c_functions := c_functions c |}
-  end.
+  if existsb (fun pl => match sassoc name (snd pl) with
+                        | Some (id', _, _) => negb (Z.eqb id' id)
+                        | None => false end) (c_inputs c)
+  then Err "CompilerException"
+  else Ok {| c_inputs := supdate party (supdate name (id, ty, doc) pin) (c_inputs c);
+             c_parties := sadd party (c_parties c); c_literals := c_literals c; c_functions := c_functions c |}.
 
 Definition add_literal (idx value : string) (ty : mty) (c : cstate) : cstate :=
   {| c_inputs := c_inputs c; c_parties := c_parties c;
